@@ -1,2 +1,32 @@
-(* C04 over the BMP ingress path: the expected observation is the one of engine c04. *)
-let run_case = Eng_c04.run_case
+(* C04 over the BMP ingress path: the expected observation is the one of engine c04,
+   in the order of the emitted Update::Bulk: withdrawals first, then announcements
+   (fix "apply an UPDATE's withdrawals before its announcements", RFC 4271 4.3).
+   One segment per PDU, introduced by a "|" token; a segment is either
+   `ok ev ev ..` or the single comma-joined token `ok,ev,ev,..`. *)
+let is p t = String.length t > 0 && t.[0] = p
+let reorder_list (l : string list) : string list =
+  let head = Stdlib.List.filter (fun t -> not (is 'A' t) && not (is 'W' t)) l in
+  head @ Stdlib.List.filter (is 'W') l @ Stdlib.List.filter (is 'A') l
+
+let reorder_segment (seg : string list) : string list =
+  match seg with
+  | [t] when String.contains t ',' -> [Conv.join "," (reorder_list (String.split_on_char ',' t))]
+  | _ -> reorder_list seg
+
+let reorder (part : string) : string =
+  let toks = Conv.words part in
+  (* split at "|" tokens *)
+  let rec go acc cur = function
+    | [] -> Stdlib.List.rev (Stdlib.List.rev cur :: acc)
+    | "|" :: r -> go (Stdlib.List.rev cur :: acc) [] r
+    | t :: r -> go acc (t :: cur) r in
+  match go [] [] toks with
+  | [] -> part
+  | first :: segs ->
+      Conv.join " " (first @ Stdlib.List.concat_map (fun s -> "|" :: reorder_segment s) segs)
+
+let bulk_order (line : string) : string =
+  let parts = Str.split (Str.regexp_string "|||") line in
+  Conv.join " ||| " (Stdlib.List.map (fun p -> reorder (String.trim p)) parts)
+
+let run_case (line : string) : string = bulk_order (Eng_c04.run_case line)
